@@ -27,6 +27,8 @@ type Case struct {
 	Present  bool   `json:"present"` // the well-named files are present (only the hostile one is "missing")
 	NulInID  bool   `json:"nul_in_id,omitempty"`
 	Spelling string `json:"spelling,omitempty"` // create: how the outside input is spelled
+	Unsaved  bool   `json:"unsaved,omitempty"`  // par1: the hostile entry is not saved in the parity volume set
+	Empty    bool   `json:"empty,omitempty"`    // par1: the hostile entry declares a zero-length file
 }
 
 const nest = "l1/l2/l3/l4/l5/arch"
@@ -43,6 +45,8 @@ func buildTree(root string) {
 		"l1/l2/l3/l4/l5/x":             []byte("canary l5 (parent of the archive directory)"),
 		"l1/l2/l3/l4/l5/sibling/x":     []byte("canary sibling"),
 		"l1/l2/l3/l4/l5/sibling/y.dat": []byte("canary sibling y"),
+		"l1/l2/l3/l4/l5/arch-old/y.dat": []byte("canary in a sibling whose name starts with the archive directory's name"),
+		"l1/l2/l3/l4/l5/arch2/z.dat":    []byte("canary arch2"),
 		"l1/l2/l3/l4/l5/arch/a/keep":   []byte("sub-directory inside the archive directory"),
 		"l1/l2/l3/l4/l5/arch/sub/keep": []byte("another"),
 	}
@@ -120,14 +124,27 @@ func check(c Case) (string, bool) {
 		os.WriteFile(filepath.Join(arch, "set.vol00+14.par2"), par2ref.EncodeAll(ps), 0o644)
 	case "par1":
 		var es []par1ref.Entry
+		var saved [][]byte
 		for i, n := range names {
+			if n == hostile && c.Unsaved {
+				d := originals[i]
+				if c.Empty {
+					d = []byte{}
+				}
+				es = append(es, par1ref.NewEntry(n, d, false))
+				continue
+			}
 			es = append(es, par1ref.NewEntry(n, originals[i], true))
+			saved = append(saved, originals[i])
+		}
+		if c.Unsaved {
+			originals = append(originals, []byte{})
 		}
 		sh := par1ref.SetHash(es)
 		idx = filepath.Join(arch, "set.par")
 		os.WriteFile(idx, par1ref.Volume{SetHash: sh, Entries: es}.Encode(), 0o644)
 		for v := 1; v <= 3; v++ {
-			os.WriteFile(filepath.Join(arch, fmt.Sprintf("set.p%02d", v)), par1ref.Volume{SetHash: sh, VolNumber: uint64(v), Entries: es, Data: par1ref.Parity(originals, v)}.Encode(), 0o644)
+			os.WriteFile(filepath.Join(arch, fmt.Sprintf("set.p%02d", v)), par1ref.Volume{SetHash: sh, VolNumber: uint64(v), Entries: es, Data: par1ref.Parity(saved, v)}.Encode(), 0o644)
 		}
 	case "create":
 		// PAR2 Create must refuse inputs outside the index file's directory tree
@@ -143,6 +160,9 @@ func check(c Case) (string, bool) {
 			"rel-sibling":  "REL:../sibling/y.dat",
 			"rel-up-down":  "REL:../../l5/x",
 			"double-slash": arch + "//..//x",
+			"prefix-sibling":  filepath.Join(root, "l1/l2/l3/l4/l5/arch-old/y.dat"),
+			"prefix-sibling2": filepath.Join(root, "l1/l2/l3/l4/l5/arch2/z.dat"),
+			"rel-prefix":      "REL:../arch-old/y.dat",
 		}[c.Spelling]
 		before, _ := fsx.Take(root)
 		var err error
@@ -258,6 +278,10 @@ func TestCheck(t *testing.T) {
 						continue
 					}
 					do(Case{Format: format, Name: n, Pos: pos, Present: present})
+					if format == "par1" {
+						do(Case{Format: format, Name: n, Pos: pos, Present: present, Unsaved: true, Empty: true})
+						do(Case{Format: format, Name: n, Pos: pos, Present: present, Unsaved: true})
+					}
 					if strings.Contains(n, "\x00") && format == "par2" {
 						do(Case{Format: format, Name: n, Pos: pos, Present: present, NulInID: true})
 					}
@@ -265,7 +289,7 @@ func TestCheck(t *testing.T) {
 			}
 		}
 	}
-	for _, sp := range []string{"abs-parent", "abs-sibling", "abs-root", "dotdot", "dotdot-deep", "rel-dotdot", "rel-sibling", "rel-up-down", "double-slash"} {
+	for _, sp := range []string{"abs-parent", "abs-sibling", "abs-root", "dotdot", "dotdot-deep", "rel-dotdot", "rel-sibling", "rel-up-down", "double-slash", "prefix-sibling", "prefix-sibling2", "rel-prefix"} {
 		idx++
 		if cfg.Mine(idx) {
 			do(Case{Format: "create", Spelling: sp})
